@@ -4,7 +4,7 @@ import ast
 from sa.core import (AnalysisError, FUNC, assignments, call_name, class_attr, const, dotted, enclosing, enclosing_func,
                      enclosing_stmt, is_attr, is_name, is_self_attr, literal, norm, params, parent, walk_local, names_in, ancestors)
 from sa.guards import canon_test, facts, enclosing_loops
-from sa.finite import Interp, C, K, TOP
+from sa.finite import Interp, C, K, S, TOP
 
 PROP = "C18"
 REL = "ak/xlsread.py"
@@ -168,13 +168,17 @@ def run(cx):
     ok = pv is not None and bool(eff)
     cx.ob("R18d", f0, ok, "an empty leading cell is replaced by the *cell object* of the previous effective row (origin follows the value)" if ok else
           f"ladder fill stores {norm(f0.value)}: a value / another cell, so the reported origin no longer holds the value")
-    fs = {(norm(e), pol) for e, pol in facts(f0)}
-    ok = (f"self._cell_is_empty({X}[{i}])", True) in fs or (f"cls._cell_is_empty({X}[{i}])", True) in fs
-    cx.ob("R18d", f0, ok, "only empty cells are filled" if ok else "non-empty cells may be overwritten", stmt=norm(f0) + " [guard]")
-    lp2 = enclosing_loops(f0)[0]
-    brk = [b for b in ast.walk(lp2) if isinstance(b, ast.Break)]
-    ok = len(brk) == 1 and norm(lp2.iter) == f"range(first_col_pos, len({X}))" and any(norm(e) in (f"self._cell_is_empty({X}[{i}])", f"cls._cell_is_empty({X}[{i}])") and not pol for e, pol in facts(brk[0]))
-    cx.ob("R18d", lp2, ok, "filling stops at the first non-empty cell, starting at the first titled column" if ok else "ladder fill range / stop condition altered")
+    if isinstance(f0.targets[0].slice, ast.Slice):
+        # the fill as one slice assignment  F[a:b] = P[a:b]  with  b = a + <number of leading blank cells of the row from a on>
+        cx.guard(_slice_fill, cx, it, f0, X, rowv)
+    else:
+        fs = {(norm(e), pol) for e, pol in facts(f0)}
+        ok = (f"self._cell_is_empty({X}[{i}])", True) in fs or (f"cls._cell_is_empty({X}[{i}])", True) in fs
+        cx.ob("R18d", f0, ok, "only empty cells are filled" if ok else "non-empty cells may be overwritten", stmt=norm(f0) + " [guard]")
+        lp2 = enclosing_loops(f0)[0]
+        brk = [b for b in ast.walk(lp2) if isinstance(b, ast.Break)]
+        ok = len(brk) == 1 and norm(lp2.iter) == f"range(first_col_pos, len({X}))" and any(norm(e) in (f"self._cell_is_empty({X}[{i}])", f"cls._cell_is_empty({X}[{i}])") and not pol for e, pol in facts(brk[0]))
+        cx.ob("R18d", lp2, ok, "filling stops at the first non-empty cell, starting at the first titled column" if ok else "ladder fill range / stop condition altered")
     # where the ladder starts: the first column that has a title at all (also columns of ranged groups / columns no rule names)
     fc = [(stt, v) for stt, v in assignments(it, "first_col_pos") if v is not None and not (isinstance(v, ast.Constant) and v.value is None)]
     ok = len(fc) == 1 and isinstance(fc[0][1], ast.Call) and call_name(fc[0][1]) == "next" and isinstance(fc[0][1].args[0], ast.GeneratorExp)
@@ -255,6 +259,60 @@ def run(cx):
     cx.ob("R18e", it, ok, "column ids are positions in the title row" if ok else "title -> position map altered", stmt="col_names_ids")
 
 
+def _slice_fill(cx, it, f0, X, rowv):
+    """F[a:b] = P[a:b]: a is the first titled column, b = a + H(<row>[a:]) where the private helper H returns the position of the
+    first cell of its argument that is not blank (len if all are).  H's test is evaluated on the partition of cell values of
+    R18g: it must hold exactly for the cells that are data."""
+    from sa.guards import expand_at
+    from sa.inline import inlined as _inl
+    from sa.finite import K as _K, C as _C
+    sl = f0.targets[0].slice
+    a = norm(sl.lower) if sl.lower is not None else None
+    same = isinstance(f0.value, ast.Subscript) and isinstance(f0.value.slice, ast.Slice) and norm(f0.value.slice) == norm(sl)
+    cx.need(a is not None and sl.upper is not None and sl.step is None and same, "R18d", f0, "slice form of the ladder fill not recognised")
+    ok = a == "first_col_pos"
+    cx.ob("R18d", f0, ok, "filling starts at the first titled column" if ok else f"the ladder fill starts at {a}, not at the first titled column", stmt=norm(f0) + " [start]")
+    b = expand_at(sl.upper, f0)
+    hc = b.right if isinstance(b, ast.BinOp) and isinstance(b.op, ast.Add) and norm(b.left) == a else b.left if isinstance(b, ast.BinOp) and isinstance(b.op, ast.Add) and norm(b.right) == a else None
+    cx.need(isinstance(hc, ast.Call) and isinstance(hc.func, ast.Attribute) and is_name(hc.func.value, "self", "cls") and len(hc.args) == 1, "R18d", f0,
+            f"upper end of the filled slice `{norm(b)}` is not <start> + <count of leading blank cells>")
+    arg = hc.args[0]
+    ok = isinstance(arg, ast.Subscript) and isinstance(arg.slice, ast.Slice) and arg.slice.upper is None and arg.slice.step is None and norm(arg.slice.lower) == a \
+        and norm(arg.value) in (rowv, X)
+    cx.ob("R18d", f0, ok, "the blank cells are counted in the current row, from the start column on" if ok else f"blank cells are counted in `{norm(arg)}`", stmt=norm(f0) + " [counted in]")
+    owner = enclosing(it, (ast.ClassDef,))
+    H = next((m for m in owner.body if isinstance(m, FUNC) and m.name == hc.func.attr), None)
+    cx.need(H is not None, "R18d", f0, f"helper {hc.func.attr} not found")
+    H, _u = _inl(cx.repo.modules[REL], H, nested=True, tests=True)
+    ps = [p for p in params(H) if p not in ("self", "cls")]
+    body = [s_ for s_ in H.body if not (isinstance(s_, ast.Expr) and isinstance(s_.value, ast.Constant))]
+    lp = body[0] if body and isinstance(body[0], ast.For) else None
+    shape_ok = len(ps) == 1 and len(body) == 2 and lp is not None and isinstance(lp.target, ast.Tuple) and len(lp.target.elts) == 2 and norm(lp.iter) == f"enumerate({ps[0]})" \
+        and isinstance(body[1], ast.Return) and norm(body[1].value) == f"len({ps[0]})" and not lp.orelse
+    cx.need(shape_ok, "R18d", H, "counting helper is not `for n, cell in enumerate(cells): <stop at the first data cell: return n>; return len(cells)`")
+    nvar, cvar = norm(lp.target.elts[0]), norm(lp.target.elts[1])
+    classes = [("None", _K("none"), True), ("''", _K("str", empty=True), True), ("white space only", _K("str", empty=False, tag="ws"), True),
+               ("text", _K("str", empty=False, tag="text"), False), ("int 0", _K("int", tag="zero"), False), ("int != 0", _K("int", tag="nonzero"), False),
+               ("float 0.0", _K("float", tag="zero"), False), ("float != 0", _K("float", tag="nonzero"), False), ("False", _C(False), False),
+               ("True", _C(True), False), ("date / other object", _K("other", empty=False, tag="datetime"), False)]
+    for label, val, blank in classes:
+        outs = _CellInterp().run(lp.body, {f"{cvar}.value": val, nvar: S((("ref", nvar),))})
+        stops = set()
+        for o in outs:
+            if o.how == "return":
+                if not (isinstance(o.value, S) and o.value == S((("ref", nvar),))):
+                    raise AnalysisError("R18d", f"{REL}::{H.name}", f"the helper returns {o.value!r} inside the loop, not the position")
+                stops.add(True)
+            elif o.how == "fall":
+                stops.add(False)
+            else:
+                raise AnalysisError("R18d", f"{REL}::{H.name}", f"loop body ends with {o.how} for a cell holding {label}")
+        ok = stops == {not blank}
+        cx.ob("R18d", H, ok, f"a leading cell holding {label} {'is filled from above' if blank else 'stops the fill'}" if ok else
+              f"a leading cell holding {label} {'stops the fill' if blank else 'is treated as blank: it is overwritten by the cell above (value and origin of another row)'}"
+              + (" on some paths" if len(stops) > 1 else ""), stmt=f"{H.name}({label})")
+
+
 # ---------------------------------------------------------------------- R18g: the blank-cell predicate
 class _CellInterp(Interp):
     """str(), .strip() on the finite partition of cell values."""
@@ -327,4 +385,4 @@ def _r18g(cx):
               + ("rows / leading cells holding it are treated as blank (table ends early, ladder fill overwrites it)" if not want else "blank cells are treated as data"),
               stmt=f"_cell_is_empty({label})")
     users = [c for m, q, g in cx.repo.functions({REL}) for c in walk_local(g) if isinstance(c, ast.Call) and call_name(c) == "_cell_is_empty"]
-    cx.at_least("R18g", "uses of the blank-cell predicate", len(users), 3)
+    cx.at_least("R18g", "uses of the blank-cell predicate", len(users), 2)
